@@ -651,6 +651,7 @@ func (w *World) doMutate(op Op) {
 		return
 	}
 	if op.K == "silent" || op.Q != "" || d.QueryMap != nil {
+		w.Svc.everSilent[op.S] = true
 		// not announced: the gateway learns about it through a reset or query event
 		return
 	}
